@@ -25,7 +25,7 @@ LEVEL = "proof"
 MODULE = "Sqfs.Props.C05"
 REQUIRED = ["Sqfs.C05." + n for n in (
     "meta_seek_safe", "meta_read_safe", "meta_read_terminates", "meta_history_safe", "get_block_safe",
-    "get_fragment_safe", "stream_fill_safe", "read_table_safe", "read_inode_file_safe", "read_inode_slink_safe",
+    "get_fragment_safe", "stream_fill_safe", "data_read_safe", "read_table_safe", "read_inode_file_safe", "read_inode_slink_safe",
     "read_inode_dir_ext_safe", "read_dir_ent_safe", "readdir_progress", "unpack_dir_index_safe",
     "resolve_compare_safe", "fill_dir_terminates", "dir_rec_terminates")]
 
@@ -38,6 +38,7 @@ K_D25 = "D25:sqfs_inode_unpack_dir_index_entry:unchecked-record"
 K_D17 = "D17:dir_rec:directory-cycle"
 K_DAG = "D17:shared-subdirectory-blowup"
 K_DEEP = "D26:fill_dir:recursion-depth"
+K_D27 = "D27:sqfs_xattr_reader_seek_kv:no-xattr-table"
 SITE_KEYS = [("dr_stream_get_buffered_data", K_D4), ("sqfs_data_reader_get_fragment", K_D5), ("sqfs_meta_reader_read", K_D3),
              ("sqfs_dir_reader_resolve_path", K_D19), ("sqfs_inode_unpack_dir_index_entry", K_D25)]
 OP_KEYS = {"unpack": K_D25, "getfrag": K_D5, "stream": K_D4, "resolve": K_D19, "read": K_D3, "seek": K_D3}
@@ -155,6 +156,10 @@ def gen_data_lines(rng):
         lines.append("stream %d %d %d %d %d %d %d %s" % (bs, filesz, start, fidx, fragoff, fstart, fword, ws))
         for idx in {0, len(words) - 1 if words else 0, len(words)}:
             lines.append("getblk %d %d %d %d %s" % (bs, filesz, start, idx, ws))
+        for _ in range(3):
+            off = pick(rng, [0, 1, bs - 1, bs, bs + 1, 2 * bs, 2 * bs + 7, max(filesz, 1) - 1, filesz, filesz + 1, 2 ** 40])
+            size = pick(rng, [0, 1, 100, bs - 1, bs, bs + 1, 3 * bs + 5, 200000])
+            lines.append("dread %d %d %d %d %d %d %d %d %d %s" % (bs, filesz, start, fidx, fragoff, fstart, fword, off, size, ws))
     return ["img " + hx(img)] + lines
 
 
@@ -259,11 +264,13 @@ ASAN_OPTS = "detect_leaks=0:abort_on_error=0:exitcode=99:allocator_may_return_nu
 
 
 def crash_site(stderr):
-    """first /repo function in an ASan/UBSan report"""
+    """first function of the code under test in an ASan/UBSan report (I/O and codec leaf wrappers skipped)"""
     for m in re.finditer(r"#\d+ 0x[0-9a-f]+ in (\S+) (\S+)", stderr):
         fn, where = m.group(1), m.group(2)
         if "/lib/" in where or "/bin/" in where:
             if "sanitizer" in where or "/harness/" in where:
+                continue
+            if fn in ("stdio_read_at", "stdio_write_at") or "/comp/" in where:
                 continue
             return fn
     m = re.search(r"(\S+\.c:\d+:\d+): runtime error", stderr)
@@ -335,6 +342,8 @@ def routine_level(ctx, harness, stats):
             poisoned.add(owner[i])
         if got.startswith("err") or "err" in got.split()[-2:]:
             nontrivial.add(l)
+        if op == "dread" and got.startswith("err "):
+            got = "err"                            # the model does not name the error of a failing block load
         if got == m_status:
             continue
         if got == "err ALLOC":
@@ -550,6 +559,7 @@ def tool_jobs(tools, api, p, p2, scratch_dir, rng_seed):
         ("rdsquashfs -c", [str(t["rdsquashfs"]), "-c", "/f2", str(p)]),
         ("rdsquashfs -c2", [str(t["rdsquashfs"]), "-c", "/a/b/big.bin", str(p)]),
         ("rdsquashfs -x", [str(t["rdsquashfs"]), "-x", "/f2", str(p)]),
+        ("rdsquashfs -x2", [str(t["rdsquashfs"]), "-x", "/sub/deep", str(p)]),
         ("rdsquashfs -u", [str(t["rdsquashfs"]), "-u", "/", "-p", str(scratch_dir), "-q", str(p)]),
         ("sqfs2tar", [str(t["sqfs2tar"]), str(p)]),
         ("sqfsdiff", [str(t["sqfsdiff"]), "-a", str(p2), "-b", str(p)]),
@@ -571,8 +581,14 @@ def classify_tool_failure(name, r, img):
                 if (F.tree_size(g, root) or 0) > 50000:
                     return K_DAG, "memory exhausted expanding shared sub-directories"
             return None, "memory limit hit (%s)" % err[-200:]
-        if "stack-overflow" in err:
-            return K_DEEP if site and ("fill_dir" in site or "sqfs_dir_tree_destroy" in site or "resolve_ids" in site) else None, "stack overflow in %s" % site
+        if "stack-overflow" in err or rc == -11:
+            deep = any(f in err for f in (" in fill_dir ", " in sqfs_dir_tree_destroy ", " in resolve_ids "))
+            g = F.parse_dirs(img, limit=10 ** 6) if deep else None
+            depth = F.max_depth(g, next(iter(g))) if g else None          # None: cyclic (then fill_dir must have refused)
+            return (K_DEEP if (deep and depth is not None and depth >= 5000) else None), \
+                "stack overflow (recursion in read_tree.c/dir_tree.c: %s, directory nesting of the image: %s)" % (deep, depth)
+        if "null pointer" in err and " in sqfs_xattr_reader_seek_kv " in err and site == "sqfs_meta_reader_seek":
+            return K_D27, "NULL meta reader dereferenced: xattr index 0 on an image without xattr table"
         for s, k in SITE_KEYS:
             if site and s == site:
                 return k, "sanitizer report in %s" % site
@@ -594,11 +610,20 @@ def tool_level(ctx, tools, api, stats):
     rng = ctx.rng
     quick = ctx.quick()
     env = ctx.san_env({"ASAN_OPTIONS": ASAN_OPTS})
-    timeout = 10
+    timeout = int(os.environ.get("VERIF_TOOL_TIMEOUT", "20"))     # an idle machine needs ~0.05 s per run
     images = []                                   # (label, bytes, descr)
     cdir = vlib.CORPUS / "C05"
     for p in sorted(cdir.glob("*.sqfs")) if cdir.exists() else []:
         images.append(("corpus:" + p.name, p.read_bytes(), []))
+    # structural probes built on the spot: shared sub-directories (2^27 tree nodes from a 4 KiB image) and a
+    # 40000-level chain; "t2_" = only the two tree walkers are run on them
+    nlev = 26
+    images.append(("t2_probe:dag%d" % nlev, F.graph_image([[i + 1, i + 1] for i in range(nlev)] + [[]], list(range(1, nlev + 2))).build(), ["shared-subdirs"]))
+    nlev = 40000
+    fgc = F.graph_image([[i + 1] for i in range(nlev)] + [[]], list(range(1, nlev + 2)))
+    for dn in fgc.nodes:
+        dn.entries = [(b"d", e[1]) for e in dn.entries]
+    images.append(("t1_probe:chain%d" % nlev, fgc.build(), ["deep-chain"]))
     pt = vlib.REPO / "bin/rdsquashfs/test/pathtraversal.sqfs"
     if pt.exists():
         images.append(("repo:pathtraversal", pt.read_bytes(), []))
@@ -635,7 +660,7 @@ def tool_level(ctx, tools, api, stats):
     stats["tool_images_valid"] = nvalid
     ref = ctx.scratch / "ref.sqfs"
     ref.write_bytes(bases[0][1])
-    workers = min(vlib.NCPU, 6) if quick else vlib.NCPU
+    workers = int(os.environ.get("VERIF_JOBS", "3" if quick else str(vlib.NCPU)))
     results = []
 
     def work(idx):
@@ -646,7 +671,12 @@ def tool_level(ctx, tools, api, stats):
         p.write_bytes(img)
         out = []
         try:
-            for name, cmd in tool_jobs(tools, api, p, ref, wd / "un", idx):
+            jobs = tool_jobs(tools, api, p, ref, wd / "un", idx)
+            if lab.split(":")[-1].startswith("t2_") or lab.startswith("t2_"):
+                jobs = [j for j in jobs if j[0] in ("rdsquashfs -d", "sqfs2tar")]
+            elif lab.startswith("t1_"):
+                jobs = [j for j in jobs if j[0] == "rdsquashfs -d"]
+            for name, cmd in jobs:
                 if name == "sqfs2tar":
                     r = run_tool(ctx, cmd, env, timeout, tar_count=True)
                 else:
@@ -667,6 +697,15 @@ def tool_level(ctx, tools, api, stats):
         for name, cmd, r in out:
             stats["tool_runs"] += 1
             key, what = classify_tool_failure(name, r, img)
+            if key is None and r["rc"] == "timeout":
+                # confirm alone, with four times the limit, before calling it a hang (machine load is not a finding)
+                p = ctx.scratch / "confirm.sqfs"
+                p.write_bytes(img)
+                cmd2 = [str(p) if a.endswith("/i.sqfs") else a for a in cmd]
+                r = run_tool(ctx, cmd2, env, 4 * timeout, tar_count=(name == "sqfs2tar"))
+                r.pop("out", None)
+                stats["timeouts_rechecked"] = stats.get("timeouts_rechecked", 0) + 1
+                key, what = classify_tool_failure(name, r, img)
             cls = "exit0" if r["rc"] == 0 else ("error-exit" if key == "ok" else ("known" if key else "FAIL"))
             hist[name + ":" + cls] = hist.get(name + ":" + cls, 0) + 1
             if key == "ok":
@@ -676,8 +715,8 @@ def tool_level(ctx, tools, api, stats):
                                   {"kind": "image", "image_b64": base64.b64encode(img).decode(), "cmd": [os.path.basename(cmd[0])] + cmd[1:-1]}, found_input=False)
                 continue
             relcmd = [os.path.basename(cmd[0])] + [a for a in cmd[1:] if not a.startswith(str(ctx.scratch))]
-            replay = {"kind": "image", "image_b64": base64.b64encode(img).decode(), "cmd": relcmd, "tool": name, "mutation": desc, "base": lab,
-                      "rc": r["rc"], "stderr": r["err"][-1500:]}
+            replay = {"kind": "image", "image_b64": base64.b64encode(img).decode() if len(img) < 400000 else "(probe image, rebuilt by the check: %s)" % lab,
+                      "cmd": relcmd, "tool": name, "mutation": desc, "base": lab, "rc": r["rc"], "stderr": r["err"][-1500:]}
             if key:
                 stats["known_tool"][key] = stats["known_tool"].get(key, 0) + 1
                 ctx.violation(key, "%s: %s (image %s %s)" % (name, what, lab, desc[:2]), replay)
